@@ -117,13 +117,14 @@ def compare_symbolic(inp, out):
     return not problems, problems, goals
 
 
-def concretise(v, model, _names=None):
-    """Symbolic document -> native document, values taken from the counter-model where it has them (distinct symbolic words get distinct texts)."""
+def concretise(v, model, _names=None, mid=None):
+    """Symbolic document -> native document, values taken from the counter-model where it has them (distinct symbolic words get distinct texts).
+    mid: text to use for the unconstrained middle part of every symbolic word (default: a few characters of 'x%.' as long as the model says)."""
     names = _names if _names is not None else {}
     if isinstance(v, dict):
-        return {concretise(k, model, names): concretise(x, model, names) for k, x in v.items()}
+        return {concretise(k, model, names, mid): concretise(x, model, names, mid) for k, x in v.items()}
     if isinstance(v, list):
-        return [concretise(x, model, names) for x in v]
+        return [concretise(x, model, names, mid) for x in v]
     if isinstance(v, SStr):
         out = ""
         for seg in v.segs:
@@ -142,7 +143,7 @@ def concretise(v, model, _names=None):
                         k = int(model.get(str(seg._length), 1))
                     except Exception:  # noqa
                         k = 1
-                    out += ("x%." * 3)[:max(0, min(k, 6))]
+                    out += mid if mid is not None else ("x%." * 3)[:max(0, min(k, 6))]
             else:
                 raise ValueError("formatted segment in an input document")
         return out
@@ -397,11 +398,16 @@ def _doc_replay(make_doc, float_type=True, variants=()):
                 for k, v in list(mm.items()):
                     if isinstance(v, int) and not isinstance(v, bool) and abs(v) > TWO53:
                         mm[k] = v + delta
-            d = concretise(make_doc(), mm)
-            ok, obs = N.roundtrip(d, float_type=float_type)
-            tried.append(repr(d)[:200])
-            if not ok:
-                return {"native_inputs": {"document": repr(d)[:600]}, "reproduced": True, "observed": obs}
+            # the middle of a symbolic word is arbitrary text without blanks: also try the format's own reserved words there
+            for mid in ((None,) if delta is not None else (None, "data_", "_loop_", "#x", "global_")):
+                try:
+                    d = concretise(make_doc(), mm, mid=mid)
+                except Exception:  # noqa
+                    continue
+                ok, obs = N.roundtrip(d, float_type=float_type)
+                tried.append(repr(d)[:200])
+                if not ok:
+                    return {"native_inputs": {"document": repr(d)[:600]}, "reproduced": True, "observed": obs}
         return {"native_inputs": {"documents_tried": tried}, "reproduced": False, "observed": obs}
     return replay
 
